@@ -4,7 +4,7 @@ import core, framework, enc
 from props import common, c07
 
 LEVEL = 'proof'
-MODULES = ['TlsModel.Props.C01']
+MODULES = ['TlsModel.Props.C01', 'TlsModel.Props.C01Weight']
 HEAP_A, HEAP_B = 640, 8192          # peak heap <= A*len + B  (A ~ 2 x size_of the largest element type per consumed byte, nom's doubling)
 
 PLAIN_OPS = ['tls_header', 'tls_raw', 'tls_encrypted', 'tls_plaintext', 'tls_parser', 'tls_many', 'msg_ccs', 'msg_alert', 'msg_appdata',
